@@ -126,11 +126,13 @@ def tlc_validate(trace, name, cfg=None, module="TraceRef.tla"):
     return {"line": m, "labels": labels or ["no-disjunct"], "flags": flags, "items": items}, r
 
 
-def attribute(ev, labels, flags):
+def attribute(ev, labels, flags, after_crash=False):
     """Which properties a rejection is evidence against."""
     props = set()
     kind = ev.get("ev")
     res = ev.get("res")
+    if after_crash:
+        return {"C04"}
     if res in ("panic", "timeout"):
         props.add("C09")
     if kind == "Reorg":
@@ -235,10 +237,13 @@ def validate_traces(name, traces, scheds_by_run, max_rounds=40):
             rejections.append({
                 "run": run, "event_index_in_run": k - start, "event": ev_small, "labels": rej["labels"],
                 "flags": rej["flags"], "flagfail": flagfail, "items": rej["items"][:1500],
-                "props": sorted(attribute(ev, rej["labels"], rej["flags"])),
+                "props": sorted(attribute(ev, rej["labels"], rej["flags"],
+                                          after_crash=any('"ev":"Crash"' in x for x in lines[start:k + 1]))),
                 "signature": signature(ev, rej["labels"], rej["flags"],
                                        [json.loads(x) for x in lines[start + 1:k]] if "fresh-id" in rej["labels"] else None),
                 "schedule": scheds_by_run.get(run),
+                "run_events": None if scheds_by_run.get(run) else
+                [{a: b for a, b in json.loads(x).items() if a not in ("obs",)} for x in lines[start:k + 1]],
             })
             validated += k - start
             # drop this run entirely, keep the others
